@@ -7,5 +7,7 @@ CONSTANT Stuck
 \* inputs that run into an internal limit of the coder while more input is present (the caller keeps offering both)
 StopInputs == {Mk(<<FBuf(2, "OK"), FSym(1, 1, "OK"), FSym(2, 2, "OK"), FStop>>, h, Opt0) : h \in 5..8}
               \cup {Mk(<<FByte(1, 0, TRUE, "OK"), FStop>>, 3, Opt0)}
+\* one complete member: enough for the wrapper weakness of MCStarveLazy.cfg (violates StarveLive)
+SmallInputs == {Whole(LzV, Opt0), Mk(LzV, 5, Opt0)}
 NoteInputs == {[i EXCEPT !.opt.noteStuck = Stuck] : i \in XzNotes}
 =============================================================================
